@@ -68,6 +68,8 @@ def _bloc_input(rng, kind, nb, n):
         inp["len"] = rng.choice([1, 2, 3, 5])
     if rng.random() < 0.12:
         inp["names"] = dict(zip(cands, rng.sample(D.AWKWARD, len(cands))))
+    if rng.random() < 0.25:
+        inp["twice"] = rng.choice([1, 2, 5, 9])
     if rng.random() < 0.12:
         # the documented alternative constructor: preference intervals drawn from Dirichlet distributions (every support positive)
         inp["via"] = "from_params"
@@ -315,6 +317,12 @@ def call_work(inp):
                     g = cls.from_params(alphas={b: {s: inp["alpha"] for s in blocs} for b in blocs}, **kw)
                 else:
                     g = cls(**kw)
+                if inp.get("twice"):
+                    # the generator object is used twice: the first profile (another size) is discarded, the second one is judged
+                    try:
+                        g.generate_profile(inp["twice"], by_bloc=not inp["byb"])
+                    except Exception:  # noqa
+                        pass
                 if kind == "BT_MCMC":
                     out = g.generate_profile_MCMC(N, by_bloc=inp["byb"])
                 elif kind == "sBT_MCMC":
